@@ -16,6 +16,7 @@ ASSUMPTIONS = ["rustc nightly MIR construction", "Track::distances is the only p
 
 
 def run(ctx):
+    _ownership(ctx)
     _wiring(ctx)
     ctx.rule('R04.1', 'compatible() true only for equal scene ids')
     ctx.rule('R04.1i', '(shared with C03) idle bound in compatible')
@@ -117,3 +118,10 @@ def _wiring(ctx):
     import wiring
     ctx.rule('R04.3', 'configuration plumbing: same-named fields / parameters / setters / call arguments are not crossed')
     ctx.floor('R04.3', wiring.run(ctx, 'R04.3', {'scene_id'}), 20)
+
+
+def _ownership(ctx):
+    """who-may-write rows of rules/ownership.py that concern this property"""
+    import ownership
+    ctx.rule('R04.4', 'who-may-write: state this property depends on is changed only by its owners (rules/ownership.py)')
+    ctx.floor('R04.4', ownership.run(ctx, 'R04.4', 'C04'), 2)
